@@ -514,17 +514,6 @@ var c04WideKeywords = map[string]bool{"inherit": true, "initial": true, "unset":
 // c04Trigger classifies a declaration under one of the open known findings (id of the first that applies).
 func c04Trigger(prop string, vals []c04Tok, css2 bool) string {
 	vals, _ = c04SplitImportant(vals)
-	for i, t := range vals {
-		if t.tt == pcss.DelimToken && string(t.data) == "/" {
-			k := i + 1
-			for k < len(vals) && vals[k].tt == pcss.WhitespaceToken {
-				k++
-			}
-			if k < len(vals) && len(vals[k].data) > 0 && vals[k].data[0] == '*' {
-				return "K-C04-15" // `/` and `*` are written back to back: comment opener
-			}
-		}
-	}
 	// function nesting
 	var fnStack []string
 	for i, t := range vals {
@@ -562,9 +551,6 @@ func c04Trigger(prop string, vals []c04Tok, css2 bool) string {
 			n := c04NumberPrefix(t.data)
 			num := string(t.data[:n])
 			unit := strings.ToLower(string(t.data[n:]))
-			if css2 && strings.ContainsAny(num, "eE") {
-				return "K-C04-3" // KeepCSS2: Decimal applied to a lexeme in exponent notation
-			}
 			if t.tt == pcss.DimensionToken && strings.ContainsAny(unit, "0123456789\\-") {
 				return "K-C04-8" // unit is not made of letters only: Number is applied to number+unit bytes
 			}
@@ -599,17 +585,6 @@ func c04Trigger(prop string, vals []c04Tok, css2 bool) string {
 		if t.tt == pcss.HashToken && len(t.data) == 9 && t.data[7] == '0' && t.data[8] == '0' && strings.Trim(strings.ToLower(string(t.data[1:7])), "0") != "" && c04IsHex(t.data[1:]) {
 			return "K-C04-11" // #rrggbb00 becomes #0000: colour of a fully transparent value changes
 		}
-		if t.tt == pcss.UnicodeRangeToken && prop == "unicode-range" {
-			d := string(t.data[2:])
-			if k := strings.IndexByte(d, '-'); k > 0 {
-				var a, b int64
-				fmt.Sscanf(d[:k], "%x", &a)
-				fmt.Sscanf(d[k+1:], "%x", &b)
-				if a > b {
-					return "K-C04-7"
-				}
-			}
-		}
 		if (prop == "font-family" || prop == "font") && t.tt == pcss.StringToken && len(t.data) > 2 && len(fnStack) == 0 {
 			words := strings.Split(strings.ToLower(string(t.data[1:len(t.data)-1])), " ")
 			if len(words) == 1 && c04FamilyKeywords[words[0]] {
@@ -621,51 +596,6 @@ func c04Trigger(prop string, vals []c04Tok, css2 bool) string {
 						return "K-C04-6"
 					}
 				}
-			}
-		}
-	}
-	if prop == "unicode-range" {
-		n, full := 0, false
-		for _, t := range vals {
-			if t.tt == pcss.UnicodeRangeToken {
-				n++
-				d := strings.ToLower(string(t.data[2:]))
-				if k := strings.IndexByte(d, '-'); k > 0 && strings.TrimLeft(d[:k], "0") == "" && strings.TrimLeft(d[k+1:], "0") == "10ffff" {
-					full = true
-				}
-			}
-		}
-		_ = full
-		if n >= 3 {
-			return "K-C04-13" // merge loop skips the element after a removed/merged range (`initial` inside a list when one range is U+0-10FFFF)
-		}
-	}
-	if prop == "background-position" || prop == "background" {
-		layer, n3 := 0, 0
-		for i, t := range vals {
-			if t.tt == pcss.CommaToken {
-				layer++
-				n3 = 0
-				continue
-			}
-			if t.tt == pcss.WhitespaceToken {
-				continue
-			}
-			n3++
-			if t.tt == pcss.PercentageToken && i > 0 {
-				// previous non-space token
-				k := i - 1
-				for k > 0 && vals[k].tt == pcss.WhitespaceToken {
-					k--
-				}
-				kw := strings.ToLower(string(vals[k].data))
-				num := strings.TrimLeft(string(t.data[:len(t.data)-1]), "+-")
-				if (kw == "right" || kw == "bottom") && strings.Trim(num, "0123456789") != "" {
-					return "K-C04-1" // right/bottom with a non-integer percentage offset
-				}
-			}
-			if layer > 0 && n3 >= 3 {
-				return "K-C04-2" // 3-/4-value position in a later layer: zero-offset test uses a wrong index
 			}
 		}
 	}
@@ -952,18 +882,8 @@ func c04Known(c *Ctx) {
 	}
 }
 
-// c04Reseed: h.NewRNG makes the streams of neighbouring seeds shifted copies of each other (state = seed*γ + k,
-// step = +γ); every random choice here still derives from VERIF_SEED, through a finalising mix.
-func c04Reseed(c *Ctx) {
-	z := c.Seed*0x9E3779B97F4A7C15 + 0xC04C04C04
-	z = (z ^ (z >> 30)) * 0xBF58476D1CE4E5B9
-	z = (z ^ (z >> 27)) * 0x94D049BB133111EB
-	c.Rng = &h.RNG{S: z ^ (z >> 31)}
-}
-
 func init() {
 	register("C04", func(c *Ctx) error {
-		c04Reseed(c)
 		c04Tables(c)
 		if err := c04Num(c); err != nil {
 			return err
